@@ -626,6 +626,109 @@ theorem follower_accepts_only_leader_seat (addr : Nat → Nat) (c : Ctx) (m : Ms
   have : some (addr m.netKey) = some leader := by rw [← hctl.2.2, hseat]
   exact ⟨by simpa using this, hseat, hlow, hact, by rw [← hid]; exact hself⟩
 
+/-! ## Session identifiers: every attempt of the signing retry loop is its own session -/
+
+theorem ofDigits_digitsAux (b : Nat) (hb : 2 ≤ b) : ∀ fuel n, n ≤ fuel → ofDigits b (digitsAux b fuel n) = n := by
+  intro fuel
+  induction fuel with
+  | zero => intro n hn; have : n = 0 := by omega
+            subst this; simp [digitsAux, ofDigits]
+  | succ f ih =>
+    intro n hn
+    unfold digitsAux
+    by_cases h0 : n = 0
+    · simp [h0, ofDigits]
+    · rw [if_neg h0]
+      have hlt : n / b < n := Nat.div_lt_self (by omega) (by omega)
+      simp only [ofDigits]
+      rw [ih (n / b) (by omega)]
+      exact Nat.mod_add_div n b
+
+theorem ofDigits_digits (b n : Nat) (hb : 2 ≤ b) : ofDigits b (digits b n) = n :=
+  ofDigits_digitsAux b hb n n (Nat.le_refl n)
+
+theorem digitsAux_lt (b : Nat) (hb : 0 < b) : ∀ fuel n, ∀ d ∈ digitsAux b fuel n, d < b := by
+  intro fuel
+  induction fuel with
+  | zero => intro n d hd; simp [digitsAux] at hd
+  | succ f ih =>
+    intro n d hd
+    unfold digitsAux at hd
+    split at hd
+    · cases hd
+    · simp only [List.mem_cons] at hd
+      rcases hd with rfl | hd
+      · exact Nat.mod_lt _ hb
+      · exact ih _ d hd
+
+theorem digitVal_digitChar : ∀ d, d < 16 → digitVal (digitChar d) = d := by decide
+theorem digitChar_ne_dash : ∀ d, d < 16 → digitChar d ≠ '-' := by decide
+
+theorem map_digitVal_digitChar (ds : List Nat) (h : ∀ d ∈ ds, d < 16) :
+    (ds.map digitChar).map digitVal = ds := by
+  induction ds with
+  | nil => rfl
+  | cons d ds ih =>
+    simp only [List.map_cons]
+    rw [digitVal_digitChar d (h d (by simp)), ih (fun x hx => h x (by simp [hx]))]
+
+theorem showBase_inj (b : Nat) (hb : 2 ≤ b) (hb16 : b ≤ 16) (m n : Nat) (hm : 0 < m) (hn : 0 < n)
+    (h : showBase b m = showBase b n) : m = n := by
+  unfold showBase at h
+  rw [if_neg (by omega), if_neg (by omega)] at h
+  have hlt : ∀ k, ∀ d ∈ (digits b k).reverse, d < 16 := by
+    intro k d hd
+    have := digitsAux_lt b (by omega) k k d (by simpa [digits] using hd)
+    omega
+  have h' := congrArg (List.map digitVal) h
+  rw [map_digitVal_digitChar _ (hlt m), map_digitVal_digitChar _ (hlt n)] at h'
+  have h'' : digits b m = digits b n := by simpa using congrArg List.reverse h'
+  rw [← ofDigits_digits b m hb, ← ofDigits_digits b n hb, h'']
+
+theorem showBase_no_dash (b : Nat) (hb : 0 < b) (hb16 : b ≤ 16) (n : Nat) : '-' ∉ showBase b n := by
+  unfold showBase
+  split
+  · decide
+  · intro hmem
+    obtain ⟨d, hd, he⟩ := List.mem_map.1 hmem
+    have := digitsAux_lt b hb n n d (by simpa [digits] using hd)
+    exact digitChar_ne_dash d (by omega) he
+
+theorem split_at_dash (xs xs' ys ys' : List Char) (h1 : '-' ∉ xs) (h2 : '-' ∉ xs')
+    (h : xs ++ '-' :: ys = xs' ++ '-' :: ys') : xs = xs' ∧ ys = ys' := by
+  induction xs generalizing xs' with
+  | nil =>
+    cases xs' with
+    | nil => simpa using h
+    | cons c cs =>
+      simp only [List.nil_append, List.cons_append, List.cons.injEq] at h
+      exact absurd (by rw [← h.1]; simp) h2
+  | cons a as ih =>
+    cases xs' with
+    | nil =>
+      simp only [List.nil_append, List.cons_append, List.cons.injEq] at h
+      exact absurd (by rw [h.1]; simp) h1
+    | cons c cs =>
+      simp only [List.cons_append, List.cons.injEq] at h
+      obtain ⟨r1, r2⟩ := ih cs (fun hm => h1 (List.mem_cons_of_mem _ hm)) (fun hm => h2 (List.mem_cons_of_mem _ hm)) h.2
+      exact ⟨by rw [h.1, r1], r2⟩
+
+/-- `session_id_injective`: the session identifier `"<message hex>-<attempt>"` determines both the
+    message and the attempt number (hexadecimal and decimal digits contain no '-'): different attempts
+    of the retry loop, and different messages, never share a session. -/
+theorem session_id_injective (m a m' a' : Nat) (hm : 0 < m) (hm' : 0 < m') (ha : 0 < a) (ha' : 0 < a')
+    (h : sessionId m a = sessionId m' a') : m = m' ∧ a = a' := by
+  have hc : sessionChars m a = sessionChars m' a' := by
+    have := congrArg String.toList h
+    simpa [sessionId] using this
+  obtain ⟨h1, h2⟩ := split_at_dash _ _ _ _ (showBase_no_dash 16 (by omega) (by omega) m)
+    (showBase_no_dash 16 (by omega) (by omega) m') hc
+  exact ⟨showBase_inj 16 (by omega) (by omega) m m' hm hm' h1,
+    showBase_inj 10 (by omega) (by omega) a a' ha ha' h2⟩
+
+example : sessionId 100 1 = "64-1" := by decide
+example : sessionId 4096 12 = "1000-12" := by decide
+
 /-! ## Non-vacuity and monitor sanity -/
 
 def exCtx : Ctx :=
